@@ -5,9 +5,91 @@ use super::standalone::Also;
 use crate::framework::*;
 use serde_json::json;
 
+/// `while it.nth(k).is_some()` / `skip(k)` drain loops: every way of driving an entry or note iterator
+/// must come to an end after at most one item per input byte.
+struct DrainLoops;
+impl Space for DrainLoops {
+    fn name(&self) -> String {
+        "drain loops `while it.nth(k).is_some()` after j x next(), k in {0,1,2,usize::MAX,usize::MAX/entsize,usize::MAX/entsize+1,2^63}, j in {0,1,2}: ParsingIterator over {Symbol, Rel, Rela, Dyn, u32, u64} x 4 encodings x byte lengths {0, ent, 3*ent+1, 40*ent}; NoteIterator over 3 notes x alignments {1,4,8}".into()
+    }
+    fn size(&self) -> u64 {
+        6 * 4 + 4
+    }
+    fn describe(&self, idx: u64) -> serde_json::Value {
+        json!({"iterator": if idx < 24 { "ParsingIterator" } else { "NoteIterator" }, "case": idx})
+    }
+    fn run(&self, idx: u64, out: &mut Outcome) {
+        use crate::alloc::subject;
+        use elf::endian::AnyEndian;
+        use elf::parse::{ParseAt, ParsingIterator};
+        use refmodel::layout::*;
+        fn drain<I: Iterator>(mk: &dyn Fn() -> I, bytes: usize, ent: usize, what: &str, out: &mut Outcome) {
+            for j in 0..3usize {
+                for k in [0usize, 1, 2, usize::MAX, usize::MAX / ent.max(1), usize::MAX / ent.max(1) + 1, 1 << 63] {
+                    let r = subject(|| {
+                        let mut it = mk();
+                        for _ in 0..j {
+                            it.next();
+                        }
+                        let mut count = 0usize;
+                        while it.nth(k).is_some() {
+                            count += 1;
+                            if count > bytes + 2 {
+                                return None;
+                            }
+                        }
+                        Some(count)
+                    });
+                    out.transitions += 1;
+                    match r {
+                        Err(m) => out.violate(format!("panic:{what} drain loop in {}", super::slice_oracles::panic_site(&m)), m),
+                        Ok(None) => out.violate(format!("runaway:{what}::nth"), format!("`while it.nth({k}).is_some()` after {j} x next() yields more than {} items from {bytes} bytes", bytes + 2)),
+                        Ok(Some(_)) => {}
+                    }
+                }
+            }
+        }
+        fn per_type<P: ParseAt>(enc: Enc, who: &str, out: &mut Outcome) {
+            let e = if enc.order == Order::Lsb { AnyEndian::Little } else { AnyEndian::Big };
+            let c = if enc.class == Class::C32 { elf::file::Class::ELF32 } else { elf::file::Class::ELF64 };
+            let ent = P::size_for(c);
+            for blen in [0, ent, 3 * ent + 1, 40 * ent] {
+                let data: Vec<u8> = (0..blen).map(|i| (i * 37 % 251) as u8).collect();
+                drain(&|| ParsingIterator::<AnyEndian, P>::new(e, c, &data), blen, ent, who, out);
+            }
+        }
+        if idx < 24 {
+            let enc = ENCS[(idx % 4) as usize];
+            match idx / 4 {
+                0 => per_type::<elf::symbol::Symbol>(enc, "ParsingIterator<Symbol>", out),
+                1 => per_type::<elf::relocation::Rel>(enc, "ParsingIterator<Rel>", out),
+                2 => per_type::<elf::relocation::Rela>(enc, "ParsingIterator<Rela>", out),
+                3 => per_type::<elf::dynamic::Dyn>(enc, "ParsingIterator<Dyn>", out),
+                4 => per_type::<u32>(enc, "ParsingIterator<u32>", out),
+                _ => per_type::<u64>(enc, "ParsingIterator<u64>", out),
+            }
+        } else {
+            let enc = ENCS[(idx - 24) as usize];
+            let e = if enc.order == Order::Lsb { AnyEndian::Little } else { AnyEndian::Big };
+            let c = if enc.class == Class::C32 { elf::file::Class::ELF32 } else { elf::file::Class::ELF64 };
+            for align in [1usize, 4, 8] {
+                let notes = vec![
+                    refmodel::notes::NoteSpec { n_type: 3, name: b"GNU\0".to_vec(), desc: vec![1, 2, 3, 4, 5] },
+                    refmodel::notes::NoteSpec { n_type: 7, name: b"ab".to_vec(), desc: vec![9; 3] },
+                    refmodel::notes::NoteSpec { n_type: 1, name: b"GNU\0".to_vec(), desc: vec![0; 16] },
+                ];
+                let data = refmodel::notes::build_notes(enc.order, align, &notes, 0);
+                drain(&|| elf::note::NoteIterator::new(e, c, align, &data), data.len(), 12, "NoteIterator", out);
+            }
+        }
+        out.nontrivial(idx ^ 0xd7a1);
+    }
+}
+
 pub fn build(tier: Tier) -> CheckDef {
     let (mut spaces, bounds) = spaces_for(tier, Mode::Bounded, Also::Bounded, "C16 bounded work");
     spaces.extend(super::c16_graphs::spaces(tier));
+    spaces.push(Box::new(DrainLoops));
     CheckDef {
         prop: "C16",
         level: "model_checking",
